@@ -6,4 +6,8 @@ import "github.com/nspcc-dev/dbft/verifh/ev"
 var Registry = map[string]func(*ev.Run){
 	"C01": C01,
 	"C02": C02,
+	"C03": C03,
+	"C04": C04,
+	"C07": C07,
+	"C10": C10,
 }
